@@ -32,6 +32,28 @@ Section WithAddresses.
     match goal with |- match ?o with Some _ => _ | None => _ end <> _ => destruct o as [xs|]; [|discriminate] end.
     destruct (group addr xs _); [discriminate | apply build_no_panic].
   Qed.
+  (** ... and never reports TooManyPayments (only [new] / [from_indexed] do) *)
+  Lemma apply_params_no_too_many vs : forall i p n, apply_params addr can_memo t_only vs i p <> Err (ETooMany n).
+  Proof.
+    induction vs as [|v vs IH]; intros i p n; [discriminate|].
+    cbn [apply_params]. destruct v; try apply IH.
+    - destruct (t_only (p_addr p) && (z =? 0)); [discriminate | apply IH].
+    - destruct (can_memo (p_addr p)); [apply IH | discriminate].
+  Qed.
+  Lemma build_no_too_many m : forall n, build addr can_memo t_only m <> Err (ETooMany n).
+  Proof.
+    induction m as [|[i ps] m IH]; intros n; [discriminate|]. cbn [build].
+    destruct (to_payment addr can_memo t_only ps i) as [p|e|] eqn:T; try discriminate.
+    - destruct (build addr can_memo t_only m) as [q|e|] eqn:B; try discriminate. intros [= ->]. apply (IH n). reflexivity.
+    - unfold to_payment in T. destruct (find_addr addr ps); [|injection T as <-; discriminate].
+      intros [= ->]. apply (apply_params_no_too_many _ _ _ _ T).
+  Qed.
+  Theorem from_uri_no_too_many uri : forall n, from_uri addr addr_dec can_memo t_only uri <> Err (ETooMany n).
+  Proof.
+    intros n. unfold from_uri. destruct (lead_addr addr addr_dec uri) as [[lead rest]|]; [|discriminate].
+    match goal with |- match ?o with Some _ => _ | None => _ end <> _ => destruct o as [xs|]; [|discriminate] end.
+    destruct (group addr xs _); [discriminate | apply build_no_too_many].
+  Qed.
 End WithAddresses.
 
 (** A one-address oracle for witnesses: the address "z". *)
@@ -64,3 +86,9 @@ Lemma new_refuses_reserved_names :
   request_new unit u_dec u_enc u_true u_false [mkPayment tt (Some COIN) None (Some [120]) None [([97], [120])]]
     = Ok [(0, mkPayment tt (Some COIN) None (Some [120]) None [([97], [120])])].
 Proof. vm_compute. repeat split. Qed.
+
+(** [from_indexed] performs none of the validity checks: it returns an invalid request unchanged. *)
+Lemma from_indexed_unchecked :
+  let r := [(0, mkPayment tt (Some COIN) None None None [(s_label, [120])])] in
+  from_indexed unit r = Ok r /\ validb unit u_true u_false r = false.
+Proof. vm_compute. split; reflexivity. Qed.
